@@ -89,6 +89,11 @@ CHECKS = {
          "vinstr rewrites, at build time, the go statement, the chan struct{} semaphore, sync.WaitGroup and sync.Mutex of cmd/*/check.go and checkers/analyzer/run.go to scheduler shims (verifmcrt); /repo is untouched. Leg 1: the real checkFile with 1-3 probe checkers (walkers that yield, count how many are inside WalkFile, optionally panic with an error / a string) x concurrency 1..3, every interleaving (unbounded for <=2 checkers, preemption bound 2 otherwise, 3 thorough): no deadlock, at most `concurrency` walkers active, output lines equal the sequential order, foundIssues correct, a checker panic kills the run, identical replay. Leg 2: 2 and 3 concurrent passes of the real runAnalyzer from a fresh and a warm init latch x {valid, bad -go, empty selection}: every pass equals its sequential result, error reported as sequentially, nothing analysed after a failed init. Leg 3 (complement, sampling of schedules): -race builds of the real go-critic with -concurrency 1..16 on a workspace and of a harness that runs all 107 checkers as goroutines over every example file and parallel per-package checker sets; any race report or output difference is a violation.",
          "The cooperative scheduler sees only the rewritten synchronisation points and yields inside probe walkers; unsynchronised accesses inside real checkers are the race-detector legs' and C05's subject. -concurrency <= 0 is outside the stated range.",
          "DESIGN.md section 3, C04"),
+ "C09": ("exploration",
+         "bounded-exhaustive program enumeration; every machine fix and every message-quoted replacement is substituted into the file and judged by go/parser, go/types and re-analysis",
+         "Over all example packages, the odd-syntax and type-shape families and all 1-deviation mutants of the examples (incl. re-typing declarations to defined/alias types and inserting a marker statement between every two adjacent statements): for each diagnostic with a QuickFix, and each message matching one of six quotation formats whose quoted original can be located in the source, the replacement must parse as the category of what it replaces; the file with the replacement substituted must type-check (std imports named by the replacement are added, now-unused imports ignored); the replaced expression must keep its type up to default typing (evaluated inside one type universe); marker statements inside a fix range must survive; and re-analysis must not report the same diagnostic at the same place (the checker's diagnostics in that file must decrease).",
+         "Messages in other formats are counted as unclassified and never judged. methodExprCall's two-part rewrite is not judged.",
+         "DESIGN.md section 3, C09"),
 }
 
 PENDING = {
